@@ -18,6 +18,8 @@ def run(ctx, replay=None):
                 e["mb"][0]["cmp"] = "lt"
     canary(ctx, corrupt, "C01:mass-balance")
     judge(ctx, ["C01:", "C02:volFrac"])   # the balance is only meaningful with the fraction it uses being the third moment
+    from ..cfg_part import config_part
+    config_part(ctx, ["C01:"], "c01")      # ModelConfig.tla: setters in any order, reset()+setup(): the derived data are those of the inputs in force
 
 
 if __name__ == "__main__":
